@@ -541,7 +541,8 @@ impl Engine {
                     }
                 }
                 m.push_str("\ntrace tail:\n");
-                for (t, site, op) in st.log.iter().rev().take(80).rev() {
+                let tail: usize = std::env::var("MAYVERIF_TRACE").ok().and_then(|s| s.parse().ok()).unwrap_or(80);
+                for (t, site, op) in st.log.iter().rev().take(tail).rev() {
                     m.push_str(&format!("  t{} {} {}\n", t, op_name(*op), Self::site_str(&st, *site)));
                 }
             }
